@@ -126,7 +126,11 @@ def proj_areas(obs):
     for a in ars:
         if "data" not in a:
             return None
-        out.append({"start": mi(a["start"], "area start"), "len": mi(a["len"], "area len"), "prot": a["prot"], "data": a["data"]})
+        # the abstract contents of an area are the bytes an access can reach: the first `len` bytes of the backing buffer
+        # (an implementation may keep a larger buffer after a shrink; a shorter one shows as a length mismatch in the spec)
+        ln = a["len"]
+        data = a["data"][:ln] if ln < (1 << 29) else a["data"]
+        out.append({"start": mi(a["start"], "area start"), "len": mi(ln, "area len"), "prot": a["prot"], "data": data})
     return out
 
 
@@ -173,9 +177,6 @@ def project(scenarios, events, rep):
                 rep.finding(f"worker/{k}", {"scenario": {"id": sid, "actions": acts[sid]}})
                 continue
             areas = proj_areas(e.get("obs", {}))
-            for a in e.get("obs", {}).get("areas", []):
-                if a["dlen"] != a["len"]:
-                    rep.finding("area-length-mismatch", {"scenario": {"id": sid, "actions": acts[sid]}, "event": e})
             t = dict(BLANK)
             t.update({"ev": "other", "sc": sid, "i": e["i"], "k": k, "hasobs": areas is not None, "areas": areas or []})
             a = acts[sid][e["i"]]
@@ -270,6 +271,8 @@ def validate(scenarios, wd, tag, rep, jobs, keyfn=None):
         key = f"{a['op']}{'/' + detail if detail else ''}/{'+'.join(sorted(comps))}"
         if keyfn:
             key = keyfn(key, a, e)
+            if key is None:
+                continue              # not this property's concern
         rep.finding(key, {"scenario": acts[sc], "failing_action": i, "event": e})
     nev = sum(len(v) for v in proj.values())
     return nev, len(order), verdicts
